@@ -168,7 +168,18 @@ def bfs_real(ad, insts, pad_steps=2, max_depth=None):
                 new_masks.append(masks[r] + [mask_list(td_n["action_mask"][k])])
                 new_dones.append(dones[r] + [bool(dn2[k])])
                 new_sts.append(sts[r] + [ad.project(td_n, k, group[row_inst[r]])])
-            row_inst, hist, masks, dones, sts, td = new_inst, new_hist, new_masks, new_dones, new_sts, td_n
+            # rows are independent, so their order in the real batch is free: permute the frontier at every depth
+            # (deterministically) so that every instance gets to sit at position 0 / next to different mates --
+            # code that reads "the batch's" value from row 0 then shows up in the per-row monitors
+            g = torch.Generator().manual_seed(1000 + depth)
+            perm = torch.randperm(len(new_inst), generator=g)
+            pl = perm.tolist()
+            row_inst = [new_inst[k] for k in pl]
+            hist = [new_hist[k] for k in pl]
+            masks = [new_masks[k] for k in pl]
+            dones = [new_dones[k] for k in pl]
+            sts = [new_sts[k] for k in pl]
+            td = td_n[perm]
             depth += 1
     return episodes
 
